@@ -392,6 +392,38 @@ matches itself, so the `file_name_or_pattern == language.pattern` disjunct of
 theorem C26_glob_self (p : String) : globMatch p.toList p.toList = true :=
   globMatch_self p.toList
 
+/-- The driver's class-aware matcher (`fnmatch` with `[…]`) is the glob matcher on
+every pattern without `[` — so `C26_glob_self` speaks about the matcher the
+driver runs, in that fragment. -/
+theorem C26_fnmatch_bracket_free (p f : String) (h : '[' ∉ p.toList) :
+    fnMatch p.toList f.toList = globMatch p.toList f.toList :=
+  fnMatch_eq_globMatch p.toList f.toList h
+
+/-- With character classes a pattern need not match itself: `*.[ch]` does not
+accept the text `*.[ch]`.  The `file_name_or_pattern == language.pattern`
+disjunct of `languages_for_file` is therefore *not* redundant. -/
+theorem C26_fnmatch_self_false : ¬ ∀ p : String, fnMatch p.toList p.toList = true := by
+  intro h
+  exact absurd (h "*.[ch]") (by decide)
+
+/-- **Asking with the registered pattern finds the language** — whatever the
+matcher does with that text (every `E`, in particular patterns with character
+classes that do not accept themselves): after any history,
+`languages_for_file(p)` contains every live language whose pattern is literally `p`. -/
+theorem C26_pattern_self (E : Env) (hE : E.Ok) (ops : List Op) (p : String) (d : LangDesc)
+    (hd : d ∈ live E ops) (hp : d.pattern = some p) :
+    ∃ ds, answer E ops (.langsForFile p) = .descs ds ∧ d ∈ ds := by
+  obtain ⟨ds, hr, _, hmem⟩ := C26_for_file_exact E hE ops p
+  refine ⟨ds, hr, (hmem d).2 ⟨hd, ?_⟩⟩
+  simp [patMatches, hp]
+
+/-- … and if it is the only live language accepting `p`, `language_for_file(p)` returns it. -/
+theorem C26_pattern_self_unique (E : Env) (hE : E.Ok) (ops : List Op) (p : String) (d : LangDesc)
+    (hd : d ∈ live E ops) (hp : d.pattern = some p)
+    (hu : ∀ d', d' ∈ live E ops → patMatches E p d' = true → d' = d) :
+    answer E ops (.langForFile p) = .desc d :=
+  ((C26_language_for_file_unique E hE ops p).1 d).2 ⟨hd, by simp [patMatches, hp], hu⟩
+
 /-! ## non-vacuity: a concrete environment and history -/
 
 /-- one entry-point language `textX (*.tx)` and one entry-point generator `any → dot` -/
@@ -421,5 +453,23 @@ example : exEnv.Ok := asciiEnv_ok _ _ (by decide) (by decide)
 /-- the hypotheses of `C26_cache_fresh` / `C26_cache_hit` are met inside `exOps` -/
 example : exA ∈ live exEnv (exOps.take 3) ∧ exA.mm = .factory ∧
     answer exEnv (exOps.take 1) (.mmLang "FLOW" 0) = .mm (.made 0 1 0) := by decide
+
+/-- character classes in the driver's environment: the class pattern accepts `a.c` and
+`a.h` but not its own text; asking with the pattern text still finds both languages, a
+bracketed literal file name is found by its own text and by the file it describes -/
+def exC : LangDesc := { uid := 3, name := "hdr", pattern := some "*.[ch]", mm := .factory }
+def exD : LangDesc := { uid := 4, name := "HDR2", pattern := some "*.[ch]", mm := .inst 8 }
+def exR : LangDesc := { uid := 5, name := "rep", pattern := some "r[1].d", mm := .factory }
+
+example : (run exEnv St.init
+    [.regLang exC, .regLang exD, .regLang exR, .langsForFile "a.c", .langForFile "a.h", .langsForFile "a.x",
+     .langsForFile "*.[ch]", .langForFile "*.[ch]", .langForFile "r[1].d", .langForFile "r1.d",
+     .langForFile "r[2].d"]).2 =
+    [.unit, .unit, .unit, .descs [exC, exD], .regError, .descs [],
+     .descs [exC, exD], .regError, .desc exR, .desc exR, .regError] := by decide
+
+example : fnMatch "*.[ch]".toList "*.[ch]".toList = false ∧ fnMatch "[!a-c]x[]-]".toList "dx]".toList = true ∧
+    fnMatch "[!a-c]x[]-]".toList "bx]".toList = false ∧ fnMatch "a[b".toList "a[b".toList = true ∧
+    fnMatch "[z-a]".toList "z".toList = false ∧ fnMatch "[!z-a]".toList "q".toList = true := by decide
 
 end Reg
